@@ -94,13 +94,13 @@ def Post (K : SCtx) (k : Ctx) (sub : Bool) (le q : Prop) (s s' : St) : Flow → 
       (le → s'.lastExit = s'.exit)
   | .ret, e' =>
     e' = absEnvC s' ∧ Dyn K k sub s' ∧ Frame s s' ∧ NoPending s' ∧
-      s'.exit.returning = true ∧ K.fn = true ∧ K.inFor = false ∧
+      s'.exit.returning = true ∧ K.fn = true ∧
       (le → s'.lastExit = s'.exit) ∧
       (s'.exit.exiting = true → s'.errexit = true ∧ s'.noErrExit = false ∧ s'.exit.code ≠ 0)
   | .exit, e' =>
     s'.exit.exiting = true ∧ s'.exit.returning = false ∧ e'.status = s'.exit.code ∧
       e'.out = s'.out ∧ e'.trapExit = s'.callbackExit ∧ CsubOk sub s' ∧
-      s'.handlingTrap = false ∧ s'.callbackErr = .nil ∧ NoPending s'
+      s'.handlingTrap = false ∧ s'.callbackErr = .nil ∧ NoPending s' ∧ e'.vars = s'.vars
 
 /-- Both sides run out of fuel together, or both return related results. -/
 def Rel (P : St → Flow → Env → Prop) : Option St → Res → Prop
